@@ -1145,7 +1145,9 @@ def smooth_epochs(epochs):
     '''
     if len(epochs) == 0:
         return epochs
-    epochs = np.asarray(epochs)
+    # Work on a copy: the caller's array must not be reordered (and may be
+    # read-only).
+    epochs = np.array(epochs)
     epochs.sort(axis=0)
     i = 0
     n = len(epochs)
